@@ -44,6 +44,27 @@ def mutate(r, arc):
         return bytes(b) + bytes(b[: r.choice([1, 100, 512])]), "append-self"
     return bytes(b[r.randrange(min(n, 64)):]), "drop-head"
 
+def crafted_inputs(r):
+    """inputs aimed at fixed-size internal buffers of line-oriented decoders: one body line far longer than any
+    encoder writes (uuencode / base64 filter: 64 KiB output buffer, 34 KiB line carry-over), first in the body or
+    after enough ordinary lines to lie beyond the bidders' look-ahead"""
+    import base64, binascii
+    out = []
+    payload = bytes((i * 37 + 11) & 0xff for i in range(200000))
+    ordinary_b64 = b"".join(base64.b64encode(payload[i:i + 57]) + b"\n" for i in range(0, 57 * 64, 57))
+    ordinary_uu = b"".join(binascii.b2a_uu(payload[i:i + 45]) for i in range(0, 45 * 64, 45))
+    for n in (34000, 65536, 87380, 87384, 100000, 200000):
+        long_b64 = base64.b64encode(payload[: n * 3 // 4])[:n]
+        for lead in (b"", ordinary_b64):
+            out.append(("crafted:b64-line-%d%s" % (n, "-late" if lead else ""), b"begin-base64 644 x\n" + lead + long_b64 + b"\n====\n"))
+        long_uu = b"M" + bytes(33 + (payload[i] & 63) for i in range(n))
+        for lead in (b"", ordinary_uu):
+            out.append(("crafted:uu-line-%d%s" % (n, "-late" if lead else ""), b"begin 644 x\n" + lead + long_uu + b"\n`\nend\n"))
+    # a very long first line for the text-sniffing format bidders (mtree, warc headers)
+    out.append(("crafted:mtree-long-line", b"#mtree\n" + b"a" * 150000 + b" type=file\n"))
+    out.append(("crafted:warc-long-header", b"WARC/1.0\r\nWARC-Type: resource\r\nWARC-Target-URI: file://" + b"x" * 150000 + b"\r\nContent-Length: 1\r\n\r\nA\r\n\r\n"))
+    return out
+
 def run_resilient(rep, exe, cases, meta, per_batch_timeout):
     """run cases; after a crash/hang report the culprit and continue with the rest"""
     lines = []
@@ -122,6 +143,10 @@ def run(rep):
             cons = r.choice([(0, 4096, 0), (0, 1, 0) if len(data) < 3000 else (0, 333, 0), (1, 0, 0), (2, 10, 0), (3, 0, 0), (4, 0, 0)])
             rcases.append(readcore.read_case(data, source=(0,), rplan=[sz] * (len(data) // sz + 2), has_skip=hs, has_seek=hk, consume=cons))
             meta.append((name, what, sz, cons))
+    for name, data in crafted_inputs(r):
+        for plan in ([], [4096] * (len(data) // 4096 + 2), [65536] * (len(data) // 65536 + 2)):
+            rcases.append(readcore.read_case(data, source=(0,), rplan=plan, consume=(0, 4096, 0)))
+            meta.append((name, "crafted", plan[0] if plan else 0, (0, 4096, 0)))
     t0 = time.time()
     lines = run_resilient(rep, readall, rcases, meta, per_batch_timeout=600 if quick else 3000)
     flagged = 0
